@@ -93,6 +93,9 @@ type fileCtx struct {
 	predeclared starlark.StringDict
 	globals     *Module
 	fileLocals  map[string]*cell
+	// outer: under GlobalReassign, the uses that stand directly in the file block and denote a
+	// predeclared or universal name because no global of that name is bound before them in the text.
+	outer map[*syntax.Ident]bool
 }
 
 // ExecFile parses and runs src. Static errors (parse) are returned as is.
@@ -126,6 +129,17 @@ func (in *Interp) ExecFile(opts *syntax.FileOptions, filename, src string, prede
 			}
 		}
 	}
+	if opts.GlobalReassign {
+		// "Global reassign" dialect (resolve.go, comment on AllowGlobalReassign / use): a use that stands directly
+		// in the file block is resolved at the point of use, as in Python - it denotes the global only if a binding
+		// of it precedes the use in the text, otherwise the predeclared/universal name.
+		pp := &pointOfUse{fc: fc, bound: map[string]bool{}}
+		fc.outer = map[*syntax.Ident]bool{}
+		pp.stmts(f.Stmts)
+		if pp.err != nil {
+			return nil, pp.err
+		}
+	}
 	top := &activation{name: "<toplevel>"}
 	in.stack = append(in.stack, top)
 	x := &exec{fc: fc, env: nil, act: top}
@@ -134,6 +148,142 @@ func (in *Interp) ExecFile(opts *syntax.FileOptions, filename, src string, prede
 	g := fc.globals.StringDict()
 	g.Freeze()
 	return g, err
+}
+
+// pointOfUse is the static pass for the GlobalReassign dialect: it walks the statements of the file block in
+// textual order (right-hand side before targets, loop operand before loop variables, a def's name before its
+// parameter defaults) and classifies every use that stands directly in the file block. Function bodies, lambda
+// bodies and the comprehension block (everything but the first iterable) are not in the file block.
+type pointOfUse struct {
+	fc    *fileCtx
+	bound map[string]bool
+	err   error
+}
+
+func (p *pointOfUse) stmts(ss []syntax.Stmt) {
+	for _, s := range ss {
+		switch s := s.(type) {
+		case *syntax.AssignStmt:
+			p.expr(s.RHS)
+			p.target(s.LHS)
+		case *syntax.ExprStmt:
+			p.expr(s.X)
+		case *syntax.DefStmt:
+			p.bound[s.Name.Name] = true
+			p.params(s.Params)
+		case *syntax.ForStmt:
+			p.expr(s.X)
+			p.target(s.Vars)
+			p.stmts(s.Body)
+		case *syntax.WhileStmt:
+			p.expr(s.Cond)
+			p.stmts(s.Body)
+		case *syntax.IfStmt:
+			p.expr(s.Cond)
+			p.stmts(s.True)
+			p.stmts(s.False)
+		case *syntax.LoadStmt:
+			for _, to := range s.To {
+				p.bound[to.Name] = true
+			}
+		}
+	}
+}
+
+func (p *pointOfUse) params(params []syntax.Expr) {
+	for _, prm := range params {
+		if b, ok := prm.(*syntax.BinaryExpr); ok && b.Op == syntax.EQ {
+			p.expr(b.Y)
+		}
+	}
+}
+
+func (p *pointOfUse) target(e syntax.Expr) {
+	switch e := e.(type) {
+	case *syntax.Ident:
+		p.bound[e.Name] = true
+	case *syntax.ParenExpr:
+		p.target(e.X)
+	case *syntax.TupleExpr:
+		for _, x := range e.List {
+			p.target(x)
+		}
+	case *syntax.ListExpr:
+		for _, x := range e.List {
+			p.target(x)
+		}
+	default:
+		p.expr(e)
+	}
+}
+
+func (p *pointOfUse) expr(e syntax.Expr) {
+	switch e := e.(type) {
+	case nil:
+	case *syntax.Ident:
+		if p.bound[e.Name] {
+			return
+		}
+		if _, ok := p.fc.predeclared[e.Name]; ok {
+			p.fc.outer[e] = true
+		} else if _, ok := starlark.Universe[e.Name]; ok {
+			p.fc.outer[e] = true
+		} else if p.err == nil {
+			p.err = fmt.Errorf("%s: undefined: %s (no binding precedes this top-level use)", e.NamePos, e.Name)
+		}
+	case *syntax.Literal:
+	case *syntax.ParenExpr:
+		p.expr(e.X)
+	case *syntax.UnaryExpr:
+		if e.X != nil {
+			p.expr(e.X)
+		}
+	case *syntax.BinaryExpr:
+		p.expr(e.X)
+		p.expr(e.Y)
+	case *syntax.CondExpr:
+		p.expr(e.Cond)
+		p.expr(e.True)
+		p.expr(e.False)
+	case *syntax.ListExpr:
+		for _, x := range e.List {
+			p.expr(x)
+		}
+	case *syntax.TupleExpr:
+		for _, x := range e.List {
+			p.expr(x)
+		}
+	case *syntax.DictExpr:
+		for _, x := range e.List {
+			p.expr(x)
+		}
+	case *syntax.DictEntry:
+		p.expr(e.Key)
+		p.expr(e.Value)
+	case *syntax.IndexExpr:
+		p.expr(e.X)
+		p.expr(e.Y)
+	case *syntax.SliceExpr:
+		p.expr(e.X)
+		p.expr(e.Lo)
+		p.expr(e.Hi)
+		p.expr(e.Step)
+	case *syntax.DotExpr:
+		p.expr(e.X)
+	case *syntax.CallExpr:
+		p.expr(e.Fn)
+		for _, a := range e.Args {
+			if b, ok := a.(*syntax.BinaryExpr); ok && b.Op == syntax.EQ {
+				p.expr(b.Y)
+			} else {
+				p.expr(a)
+			}
+		}
+	case *syntax.LambdaExpr:
+		p.params(e.Params)
+	case *syntax.Comprehension:
+		p.expr(e.Clauses[0].(*syntax.ForClause).X)
+	}
 }
 
 // collectStmts gathers the names bound by statements of one block (not
@@ -572,6 +722,12 @@ func (x *exec) bindName(id *syntax.Ident, v starlark.Value) error {
 }
 
 func (x *exec) lookup(id *syntax.Ident) (starlark.Value, error) {
+	if x.fc.outer[id] {
+		if v, ok := x.fc.predeclared[id.Name]; ok {
+			return v, nil
+		}
+		return starlark.Universe[id.Name], nil
+	}
 	if c := x.cellFor(id.Name); c != nil {
 		if c.v == nil {
 			x.setPos(id.NamePos)
